@@ -44,7 +44,6 @@ ASSUMPTIONS = [
 ]
 
 EQUAL_SIBLING_SIGNATURE = 'prove_patricia_merkle:links.index:equal-sibling-hashes'
-INDEX_FIRST_SIGNATURE = 'prove_patricia_merkle:link-index-before-branch-path'
 
 # region independent oracle: hashes
 
@@ -225,14 +224,15 @@ def o_lookup(tree, key):
 	return visited, steps
 
 
-def o_trace(visited, steps, cut, by_index=False, index_first=False):
+def o_trace(visited, steps, cut, by_index=False):
 	"""the nibble string spelled by the first `cut` visited nodes and the links between them: branch path, then the nibble of the
-	link taken. by_index / index_first reproduce the two recorded defects of the verifier (slot found by `links.index`; slot written
-	before the branch's own path) and are used only to tell a recorded finding from a fresh failure."""
+	link taken. by_index reproduces the recorded `links.index` defect of the verifier (slot = first one carrying the same hash) and
+	is used only to tell that recorded finding from a fresh failure."""
 	trace = []
 	for index in range(cut):
-		link = [steps[index][1 if by_index else 0]] if index + 1 < cut else []
-		trace += (link + list(visited[index][1])) if index_first else (list(visited[index][1]) + link)
+		trace += list(visited[index][1])
+		if index + 1 < cut:
+			trace.append(steps[index][1 if by_index else 0])
 	return trace
 
 
@@ -734,11 +734,7 @@ def run_patricia(ctx):
 		return answer
 
 	def defect_predictions(visited, steps, cut, key, value):
-		return [
-			(EQUAL_SIBLING_SIGNATURE, o_implied(visited[:cut], o_trace(visited, steps, cut, by_index=True), key, value)),
-			(INDEX_FIRST_SIGNATURE, o_implied(visited[:cut], o_trace(visited, steps, cut, index_first=True), key, value)),
-			(INDEX_FIRST_SIGNATURE, o_implied(visited[:cut], o_trace(visited, steps, cut, by_index=True, index_first=True), key, value)),
-		]
+		return [(EQUAL_SIBLING_SIGNATURE, o_implied(visited[:cut], o_trace(visited, steps, cut, by_index=True), key, value))]
 
 	# path encoding and node hashes
 	for _ in range(ctx.scale(300, 6000)):
@@ -770,8 +766,9 @@ def run_patricia(ctx):
 			trace = o_trace(visited, steps, len(visited))
 			if o_trace(visited, steps, len(visited), by_index=True) != trace:
 				ctx.count('patricia:equal-sibling-hash-on-path')
-			if o_trace(visited, steps, len(visited), index_first=True) != trace:
+			if any(sub[1] for sub in visited[:-1]):
 				ctx.count('patricia:non-empty-branch-path-above-last-node')
+				ctx.count(f'patricia:non-empty-branch-path-above-last-node:{label}')
 			key_bytes = pack(key)
 			nodes = [o_node(sub) for sub in visited]
 			position = rng.randrange(4)
@@ -1358,17 +1355,17 @@ MANIFEST = {
 		'induction on the loop invariant; both loops are defined by well-founded recursion on the measures n - i and n), root_empty, root_single, '
 		'embedded_hash_def, prove_complete, audit_path_shape, prove_sound_or_collision, prove_iff_honest_or_collision; Patricia: encode_path_def, '
 		'deserialize_serialize, deserialize_guard_unreachable and the verdict theorems verdict_state_hash, verdict_unanchored, '
-		'verdict_leaf_value_mismatch, verdict_wrong_value, verdict_unlinked, verdict_wrong_key (full) and verdict_positive_partial, '
-		'verdict_dead_end_partial, verdict_inconclusive_partial, verdict_truncated_partial (with the explicit hypotheses IndexOK and EmptyAbove), '
-		'plus defect_index_before_branch_path and defect_equal_sibling_hashes, which show for every hash function that the unrestricted positive '
-		'statement is false of the code. The models are tied to Merkle.py / SymbolFacade.py / NemFacade.py / BufferReader.py by a differential '
+		'verdict_leaf_value_mismatch, verdict_wrong_value, verdict_unlinked, verdict_wrong_key, verdict_inconclusive (full), walk_spells_trace and '
+		'verdict_positive_partial, verdict_dead_end_partial, verdict_truncated_partial (with the explicit hypothesis IndexOK), '
+		'branch_path_before_link_nibble (a branch with a non-empty path above the leaf: the order repaired by e003475f9), plus '
+		'defect_equal_sibling_hashes, which shows for every hash function that the unrestricted positive statement is false of the code. The models are tied to Merkle.py / SymbolFacade.py / NemFacade.py / BufferReader.py by a differential '
 		'run on generated inputs and by constants re-read from the source on every run (source_constants_tied).'),
 	'level_note': (
 		'Trusted: Lean kernel + {propext, Classical.choice, Quot.sound}; hand-written models tied by differential execution only; SHA3-256 / '
 		'Keccak-256 are parameters (soundness statements are reductions to an explicit hash collision and assume a fixed digest length). The '
-		'positive/negative/inconclusive Patricia verdict theorems are _partial: they assume that no earlier sibling link equals the chosen child '
-		'hash (the verifier uses links.index) and that every branch left through a link has an empty path (the verifier writes the link nibble '
-		'before the branch path); both excluded points are run on the real code, fail there and are recorded in known_findings.jsonl. Facades run '
+		'positive/negative/truncated Patricia verdict theorems are _partial: they assume that no earlier sibling link equals the chosen child '
+		'hash (the verifier uses links.index); the excluded point is run on the real code, fails there and is an open entry of '
+		'known_findings.jsonl. Facades run '
 		'on pure-Python stand-ins for sha3/cryptography/nacl/ripemd; the Patricia wire writer is the inverse of the SDK reader (the SDK has none).'),
 	'technique': 'Lean 4 theorems over hand-written models + differential correspondence with the Python implementation',
 }
